@@ -117,6 +117,17 @@ def handleSrv (j : Json) : R Json := do
     ("remote", nodeJ r.final.remote), ("enc", strJ r.final.enc),
     ("consumed", natJ (recvs.length - r.final.recvs.length))]
 
+def handleServe (j : Json) : R Json := do
+  let c ← cfgOf (field j "cfg")
+  let recvs ← (← getArr j "recvs").toList.mapM recvOf
+  let auths ← (← getArr j "auths").toList.mapM authOutOf
+  let regs := (← getArr j "regs").toList.map (fun x => match x with | .null => none | y => some (nodeOf y))
+  let sendOk ← (← getArr j "sendOk").toList.mapM asBool
+  let r := handleChannel c { recvs, auths, regs, sendOk, setEncOk := getBoolD j "setEncOk" true, enc := S (getStrD j "enc0" "none") }
+  pure <| Json.mkObj [
+    ("cb_established", natJ (r.1.count .established)), ("cb_finished", natJ (r.1.count .finished)),
+    ("held", .bool r.2.held), ("state", strJ r.2.state.name), ("starved", .bool r.2.recvs.isEmpty)]
+
 /-- for a script prefix and a list of candidate next inputs: does the server, after consuming
 prefix ++ [candidate], ask for yet another input? (one answer per candidate) -/
 def handleWants (j : Json) : R Json := do
